@@ -98,6 +98,15 @@ func driveC08(p *Pool, r *evid.Run) {
 		}
 		bounds[pl.src] = done
 	}
+	// 400 files at bound 0 around every policy: every internal queue fills up
+	var big []Scn
+	for _, pol := range []string{"run", "rund", "rr", "recv", "send", "starve"} {
+		for _, cp := range []int{1, 64} {
+			big = append(big, Scn{Kind: "xfer", Src: "fan400", Dst: "empty", Cap: cp, Policy: pol, Notify: true})
+		}
+	}
+	exploreAll(p, r, "C08", big, 0, 0)
+	bounds["fan400"] = 0
 	r.Set("completed_bound", bounds)
 }
 
